@@ -133,7 +133,7 @@ pub fn check_payload(ctx: &mut Ctx, payload: &[u8], hash: &[u8], pp: &PP, mainne
     match (&f.redeemers_range, &f.script_data_hash) {
         (Some((a, b)), Some(h)) => {
             ctx.count("script-data-hash-checked");
-            let models = env::cost_models();
+            let models = env::cost_models_salted(pp.cost_salt);
             let langs: Vec<u8> = if f.script_langs_in_witness.is_empty() { pp.cost_models.clone() } else { f.script_langs_in_witness.clone() };
             let mut ok = false;
             let mut tried = vec![];
@@ -236,6 +236,9 @@ impl Property for C10 {
             };
             let mut pp2 = pp.clone();
             pp2.mainnet = w.network == 1;
+            // another cost model in every case: a language view (or anything else) cached across compiler
+            // instances of one process shows up as a script-data hash that does not match what was configured
+            pp2.cost_salt = rng.range(0, 1_000_000);
             ctx.count(if pp2.mainnet { "network/mainnet" } else { "network/testnet" });
             let mut compiler = env::compiler(&pp2);
             let first = crate::panics::catch(|| compiler.compile(&t));
